@@ -128,6 +128,73 @@ OffArgs == {<<>>, <<VInt(0)>>, <<VInt(1)>>, <<VInt(2)>>, <<VInt(3)>>, <<VInt(4)>
 
 RECURSIVE RunTA(_, _, _)
 RunTA(evs, k, ts) == IF k > Len(evs) THEN ts ELSE RunTA(evs, k + 1, TA!Step(evs[k], ts, {}).ts)
+\* every event of the script lies inside the fragment TypedArr specifies (texts of the rendered elements, ...)
+RECURSIVE RunOK(_, _, _)
+RunOK(evs, k, ts) == k > Len(evs) \/ (TA!EvOK(evs[k], ts) /\ RunOK(evs, k + 1, TA!Step(evs[k], ts, {}).ts))
+
+\* ---------------- RW: read paths x write paths x what happened before, on the views of ONE buffer -------------------
+\* "Views over one buffer see each other's writes" quantifies over HOW a view is read (element by element, rendered by
+\* join / toString, copied out by another array's set), THROUGH WHICH view object and method the bytes were written (the
+\* observer itself, another view of the buffer, a subarray of the observer; index assignment, set from an array, set from a
+\* typed array), and over the HISTORY of the observer: whether it was read the same way before the write, and whether the
+\* writing view existed at that time.  A script of the family:
+\*   views  1 = A (kind ka, the whole 16-byte buffer, filled 1..n through A)     2 = D (the observer's kind, private: copy target)
+\*          3 = P (private Int8Array [x]: source of set-from-a-typed-array)       4 = B (kind kb, the whole buffer)
+\*          5 = S = A.subarray(1)
+\*   <read obs by r1> ; <write the LAST element of view w by meth> ; <read obs by r2>      (obs, w in {A, B, S})
+\*   late: B and S are created after the first read (observer A only).
+\* The last elements of A, B and S cover the last byte of the buffer, so every write is visible through every observer.
+\* Index reads of every view follow every event anyway (the snapshot).
+RWReadsPre  == {"none", "join", "tostr", "copy"}
+RWReadsPost == {"join", "sep", "tostr", "copy"}
+RWCore      == {"join", "tostr", "copy"}
+RWMeths     == {"idx", "setarr", "setview"}
+RWViews     == {1, 4, 5}
+RWObs       == {<<1, FALSE>>, <<1, TRUE>>, <<4, FALSE>>, <<5, FALSE>>}
+RWElems(kd) == 16 \div TA!Size(kd)
+Iota(n)     == [i \in 1..n |-> VInt(i)]
+RWCell(ka, kb, o, r1, w, meth, r2, x) == [ka |-> ka, kb |-> kb, obs |-> o[1], late |-> o[2], r1 |-> r1, w |-> w, meth |-> meth, r2 |-> r2, x |-> x]
+RWObsKind(g) == IF g.obs = 4 THEN g.kb ELSE g.ka
+RWLen(g, v)  == IF v = 4 THEN RWElems(g.kb) ELSE IF v = 5 THEN RWElems(g.ka) - 1 ELSE RWElems(g.ka)
+RWRead(v, r) == CASE r = "none" -> <<>>
+                  [] r = "join" -> <<EJoin(v, <<>>)>>
+                  [] r = "sep" -> <<EJoin(v, <<VStr(U("-"))>>)>>
+                  [] r = "tostr" -> <<EToStr(v)>>
+                  [] r = "copy" -> <<ESet(2, ViewSrc(v), <<>>)>>
+RWEvs(g) ==
+  LET setup == <<ENewBuf(16), EView(g.ka, 1, <<>>), ESet(1, ArrSrc(Iota(RWElems(g.ka))), <<>>),
+                 ENewLen(RWObsKind(g), <<VInt(RWLen(g, g.obs))>>), ENewArr("Int8Array", <<g.x>>)>>
+      mk == <<EView(g.kb, 1, <<>>), ESub(1, <<VInt(1)>>)>>
+      pre == RWRead(g.obs, g.r1)
+      last == RWLen(g, g.w) - 1
+      wr == CASE g.meth = "idx" -> <<EWrite(g.w, last, g.x)>>
+              [] g.meth = "setarr" -> <<ESet(g.w, ArrSrc(<<g.x>>), <<VInt(last)>>)>>
+              [] OTHER -> <<ESet(g.w, ViewSrc(3), <<VInt(last)>>)>>
+  IN setup \o (IF g.late THEN pre \o mk ELSE mk \o pre) \o wr \o RWRead(g.obs, g.r2)
+RWProduct(pairs, R1, R2, M, X) ==
+  {RWCell(p[1], p[2], o, r1, w, m, r2, x) : p \in pairs, o \in RWObs, r1 \in R1, w \in RWViews, m \in M, r2 \in R2, x \in X}
+\* quick: the full product of read paths x writers x methods for two lead pairs of kinds (different element sizes, either
+\* way round); every kind as the observer's and the writer's kind (the diagonal: rendering stays inside the specified
+\* number -> text fragment for every kind) and four more mixed pairs with every read path (the same before and after),
+\* writer and observer.  RWLaw (model-checked) states that no class is lost to the fragment filter RunOK.
+RWLead  == {<<"Uint8Array", "Uint16Array">>, <<"Int16Array", "Uint8Array">>}
+RWDiag  == {<<kd, kd>> : kd \in TA!KindSet}
+RWMixed == {<<"Int32Array", "Uint8Array">>, <<"Uint8ClampedArray", "Int16Array">>, <<"Uint32Array", "Uint16Array">>, <<"Int8Array", "Int32Array">>}
+RWQuickGrid == RWProduct(RWLead, RWReadsPre, RWCore, RWMeths, {VInt(9)})
+               \cup {g \in RWProduct(RWDiag \cup RWMixed, RWCore, RWCore, {"idx"}, {VInt(9)}) : g.r1 = g.r2}
+               \cup {g \in RWProduct(RWLead, {"join"}, {"sep"}, {"idx"}, {VInt(9)}) : TRUE}
+RWFullGrid == RWProduct(TA!KindSet \X TA!KindSet, RWReadsPre, RWReadsPost, RWMeths, {VInt(9)})
+              \cup RWProduct(RWDiag \cup RWLead, RWCore, RWCore, {"idx", "setarr"}, {VInt(-2), VNumW(W1p5), VInt(300)})
+RWGrid == IF Quick THEN RWQuickGrid ELSE RWFullGrid
+RWOk(g) == (g.late => g.obs = 1) /\ RunOK(RWEvs(g), 1, TA!EmptyTS)
+\* the quick sub-grid contains every class of the family, inside the specified fragment:
+RWLaw == /\ \A kd \in TA!KindSet : \A r \in RWCore : \A w \in RWViews : \A o \in RWObs :                    \* every kind observes ...
+             \E g \in RWQuickGrid : RWObsKind(g) = kd /\ g.r1 = r /\ g.r2 = r /\ g.w = w /\ <<g.obs, g.late>> = o /\ RWOk(g)
+         /\ \A kd \in TA!KindSet : \E g \in RWQuickGrid : g.w = 4 /\ g.obs # 4 /\ g.kb = kd /\ RWOk(g)             \* ... and writes
+         /\ \A r1 \in RWReadsPre : \A r2 \in RWCore : \A w \in RWViews : \A m \in RWMeths : \A o \in RWObs :      \* every combination
+             \E g \in RWQuickGrid : g.r1 = r1 /\ g.r2 = r2 /\ g.w = w /\ g.meth = m /\ <<g.obs, g.late>> = o /\ g.ka # g.kb /\ RWOk(g)
+         /\ \E g \in RWQuickGrid : g.r2 = "sep" /\ RWOk(g)
+         /\ (~Quick => \A g \in RWQuickGrid : \E h \in RWFullGrid : [h EXCEPT !.x = g.x] = g)
 
 \* ---------------- Enum: print the case spaces ------------------------------------------------------------
 VARIABLES ph, cur, rec_i, tr_l, tr_st, tr_v       \* never names that library operators bind
@@ -208,6 +275,7 @@ EnumTA ==
      \E vals \in {<<>>, <<VInt(1)>>, <<VInt(1), VInt(2), VInt(3)>>, <<VNumW(W1p5), VInt(-1)>>, <<VNaN, VNumW(WPosInf), VNumW(WNegZero)>>} :
        LET c == TACase(<<ENewArr(kd, vals), EJoin(1, s), EToStr(1)>>)
        IN TA!EvOK(c.evs[2], RunTA(c.evs, 1, TA!EmptyTS)) /\ Emit(c)
+  \/ \E g \in RWGrid : RWOk(g) /\ Emit([ty |-> "ta", evs |-> RWEvs(g), fam |-> "rw"])
 EnumNext == ph = "start" /\ (EnumPlain \/ EnumCallbacks \/ EnumSort \/ EnumTA)
 EnumEmit == ph = "start" \/ PrintT(ToJson(cur))
 
@@ -289,7 +357,7 @@ TALaw(c) ==
      /\ \A i, j \in 1..Len(ts.views) :                                                   \* aliasing: same kind, same bytes => same elements
           LET v == ts.views[i]  u == ts.views[j]
           IN (v.kind = u.kind /\ v.buf = u.buf /\ v.off = u.off /\ v.len = u.len) => TA!ViewElems(ts, v) = TA!ViewElems(ts, u)
-LawsHold == CASE ph = "start" -> CodecLaws
+LawsHold == CASE ph = "start" -> CodecLaws /\ RWLaw
               [] ph = "case" -> IF cur.ty = "call" THEN CallLaw(cur) ELSE TALaw(cur)
               [] OTHER -> TRUE
 
